@@ -269,7 +269,20 @@ func (c06) Check(ctx *core.Ctx, c *core.Case) {
 			variants = append(variants, bytes.ReplaceAll(md, []byte("\n"), []byte("\r\n")))
 		}
 		for vi, v := range variants {
-			blocks, refs, _ := core.ParseCopy(v)
+			var blocks []*cm.RootBlock
+			var refs cm.ReferenceMap
+			if c.Seed%5 == 1 {
+				// "parsing": the property names no entry point; a fifth of the documents are read
+				// through the streaming parser under small random reads or reads cut inside CRLF
+				sched := []int{5, 8, 1}[c.Seed/5%3]
+				data := append([]byte(nil), v...)
+				_, chunk, zeros, eofData := scheduleChunk(sched, core.NewRand(c.Seed), data)
+				res := StreamParse(&SchedReader{Data: data, Chunk: chunk, Zeros: zeros, EOFWithData: eofData, FailAt: -1}, nil, data, true)
+				blocks, refs = res.Blocks, res.Refs
+				ctx.Inc("documents_through_the_streaming_parser")
+			} else {
+				blocks, refs, _ = core.ParseCopy(v)
+			}
 			got := core.RenderDefault(blocks, refs)
 			if vi == 1 {
 				got = bytes.ReplaceAll(got, []byte("\r"), nil)
